@@ -463,8 +463,10 @@ def run(ctx):
     r08f(ctx)
     r08g(ctx)
     # a read by position finds its row through the position map and the indexed query: both must follow the scheme the traversals use (shared with C02)
-    from .c02 import r02d
+    from .c02 import r02d, r02i
     r02d(ctx)
+    # a getter answers from the wrapper index: a wrapper filed under a position instead of its item index is the wrong cell for the next reader (shared with C02)
+    r02i(ctx)
     # a getter that resolves a coordinate per row returns cells of other columns, stamped with other coordinates (rule shared with C19)
     from .c19 import r19g
     r19g(ctx)
